@@ -64,7 +64,7 @@ def gen_stall(rng, info, roles=None):
 def gen_net(rng):
     r = rng.random()
     chunk = 'whole' if r < 0.35 else 'few' if r < 0.7 else 'crlf' if r < 0.95 else 'bytes'
-    return {'chunk': chunk, 'latency': rng.choice(('const', 'uniform', 'heavy'))}
+    return {'chunk': chunk, 'latency': rng.choice(('const', 'uniform', 'heavy', 'heavy', 'outage'))}
 
 
 def gen_sched(rng, info, force=None):
